@@ -315,7 +315,14 @@ def assemble_rules(rep, prog, marker, written, flabel):
                   "label constants disagree: label_edges writes %s (unknown=%s), dag_to_cpdag reads compelled=%s reversible=%s - edges with an unread label vanish from the CPDAG" % (
                       sorted(final), marker, com, rev))
     rets = S.select("return", qname=q)
-    rep.check("LABELS.result", len(rets) == 1 and (rets[0].value[0] == "after" or (ok and rets[0].value[0] == "store")), fwhere(f), "returns the assembled matrix", "result is not the assembled matrix")
+    zl_ = ("ext", "numpy.zeros_like", (lab,), ())
+    no_labels = [npred(("method", lab, "any", (), ()), False), npred(("ext", "numpy.any", (lab,), ()), False), npred(("cmp", "==", ("method", lab, "sum", (), ()), ("const", 0)), True),
+                 npred(("cmp", "==", ("ext", "numpy.count_nonzero", (lab,), ()), ("const", 0)), True)]
+    main_rets = [r_ for r_ in rets if not (r_.value == zl_ and r_.path and npred(r_.path[-1][0], r_.path[-1][1]) in no_labels)]      # `if not labelled.any(): return zeros`: the empty graph
+    if len(main_rets) == 1 and len(rets) - len(main_rets) <= 1:
+        rep.check("LABELS.result", main_rets[0].value[0] == "after" or (ok and main_rets[0].value[0] in ("store", "phi")), fwhere(f), "returns the assembled matrix", "result is not the assembled matrix")
+    else:
+        rep.unk("LABELS.result", fwhere(f), "dag_to_cpdag has %d return statements; which of them hand out the assembled matrix is not read" % len(rets))
     return (com, rev) if ok else (None, None)
 
 
@@ -350,7 +357,7 @@ def order_rules(rep, prog):
     ok = marker is not None and used == {marker} and marker < 0 < start and inc and len(st) == 1 and st[0].value == ("mu", lid, c)
     rep.check("ORDER.marker", ok, fwhere(f, li["node"]), "one 'unlabelled' marker (%s) used consistently; labels are %s, %s+1, ... > 0, never the marker" % (marker, start, start),
               "unlabelled marker / labels inconsistent: marker %s, tests %s, labels start %s, increment by one: %s" % (marker, sorted(used), start, inc))
-    topo = [c_ for c_ in S.select("call", qname=q) if c_.target == U + "topological_ordering" and c_.args == [G]]
+    topo = [c_ for c_ in S.select("call", qname=q) if c_.target == U + "topological_ordering" and len(c_.args) == 1 and (c_.args[0] == G or derives_patternwise(c_.args[0], "G"))]
     rep.check("ORDER.topological", len(topo) == 1, fwhere(f), "edges are ordered along topological_ordering(G)", "order_edges does not use the topological order of G")
     # --- which edge gets the next label (roles; all accesses are [from, to])
     if len(st) != 1 or len(topo) != 1 or marker is None:
@@ -371,6 +378,7 @@ def order_rules(rep, prog):
 
     REV = (("ext", "reversed", (TO,), ()), ("sub", TO, ("slice", ("const", None), ("const", None), ("const", -1))),
            ("sub", TO, ("slice", ("const", None), ("const", None), ("unop", "neg", ("const", 1)))))
+    REV = REV + tuple(("ext", w_, (r_,), ()) for r_ in REV for w_ in ("list", "tuple", "numpy.array"))
     TOS = (TO, ("ext", "list", (TO,), ()), ("ext", "numpy.array", (TO,), ()), ("ext", "numpy.asarray", (TO,), ()))
 
     def is_position_map(P):
